@@ -208,6 +208,8 @@ def verify_contract(contract, repo, callee_contracts, models_factory, max_paths=
             try:
                 try:
                     rv = I.run_closure(fn, call.args, call.kwargs)
+                    if hasattr(rv, "_thunk") and hasattr(rv, "seq"):
+                        rv.seq  # a generator's body runs when it is consumed: consume it here so that its exceptions are the outcome
                     outcome = ("return", rv)
                 except PyRaise as e:
                     outcome = ("raise", e.exc_type)
